@@ -20,6 +20,9 @@ struct Co {
     max_panics: usize,
     /// the first inner call panics synchronously inside call()
     sync_panic_first: bool,
+    /// every service handle may be dropped while calls are in flight (a per-connection service
+    /// that goes away, `svc.clone().oneshot(req)` with the original moved): an explored action
+    handles_may_go: bool,
 }
 
 #[derive(Clone, Debug, PartialEq)]
@@ -32,7 +35,7 @@ enum Role {
 }
 
 struct X {
-    start: Box<dyn FnMut(Req) -> CallerFut>,
+    start: Option<Box<dyn FnMut(Req) -> CallerFut>>,
     roles: Vec<Option<Role>>,
     /// before a Poll: the leader call's status as seen before the poll
     pre_leader_status: Option<CallStatus>,
@@ -52,7 +55,7 @@ impl Scenario for Co {
         "C11"
     }
     fn label(&self) -> String {
-        format!("coalesce callers={} keys={}{}", self.callers, self.keys, if self.sync_panic_first { " first-inner-call-panics-in-call()" } else { "" })
+        format!("coalesce callers={} keys={}{}", self.callers, self.keys, if self.sync_panic_first { " first-inner-call-panics-in-call()" } else if self.handles_may_go { " service-handles-may-be-dropped" } else { "" })
     }
     fn callers(&self) -> usize {
         self.callers
@@ -69,7 +72,7 @@ impl Scenario for Co {
         if self.sync_panic_first {
             w.inner.lock().unwrap().sync_panic_calls = vec![0];
         }
-        let svc = layer.layer(GatedInner::new(w.inner.clone()));
+        let svc = layer.clone().layer(GatedInner::new(w.inner.clone()));
         let start: Box<dyn FnMut(Req) -> CallerFut> = Box::new(move |req: Req| {
             let mut s = svc.clone();
             drive_ready::<_, Req>(&mut s, 4).expect("ready").ok();
@@ -86,7 +89,7 @@ impl Scenario for Co {
                 Err(CoalesceError::RecvError) => Outcome::Layer("RecvError".into()),
             })
         });
-        X { start, roles: vec![None; 16], pre_leader_status: None, saw_cancelled: false, saw_shared_ok: false, saw_shared_err: false }
+        X { start: Some(start), roles: vec![None; 16], pre_leader_status: None, saw_cancelled: false, saw_shared_ok: false, saw_shared_err: false }
     }
     fn arrive_variants(&self, _w: &World, _x: &X, _c: usize) -> Vec<u8> {
         (0..self.keys).collect()
@@ -94,7 +97,7 @@ impl Scenario for Co {
     fn arrive(&self, w: &mut World, x: &mut X, c: usize, v: u8) {
         let req = Req::new(c as u32, v);
         let live_before = live_call_for_key(w, v);
-        let fut = (x.start)(req.clone());
+        let fut = (x.start.as_mut().expect("arrival after the service handles were dropped"))(req.clone());
         w.set_arrived(c, req.clone(), fut);
         let own = w.inner_calls_for_req(req.id);
         x.roles[c] = Some(match (own.first(), live_before) {
@@ -106,16 +109,28 @@ impl Scenario for Co {
     fn outs(&self) -> Vec<Out> {
         vec![Out::Ok, Out::Err(0), Out::Panic]
     }
-    fn allow(&self, _w: &World, _x: &X, h: &[Action], a: &Action) -> bool {
+    fn ctl_actions(&self, w: &World, x: &X) -> Vec<u8> {
+        // Ctl(0): the last service handle goes away (with calls in flight)
+        if self.handles_may_go && x.start.is_some() && !w.live_callers().is_empty() {
+            vec![0]
+        } else {
+            vec![]
+        }
+    }
+    fn apply_ctl(&self, _w: &mut World, x: &mut X, _ctl: u8) {
+        x.start = None;
+    }
+    fn allow(&self, _w: &World, x: &X, h: &[Action], a: &Action) -> bool {
         let c = Counts::of(h);
         match a {
+            Action::Arrive(..) if x.start.is_none() => false,
             Action::Drop(_) => c.drops < self.max_drops,
             Action::Complete(_, Out::Panic) => c.panics < self.max_panics,
             _ => true,
         }
     }
     fn fingerprint(&self, _w: &World, x: &X) -> String {
-        format!("{:?}", &x.roles[..self.callers])
+        format!("{:?}{}", &x.roles[..self.callers], if x.start.is_none() { "/handles-dropped" } else { "" })
     }
     fn before(&self, w: &World, x: &mut X, a: &Action) {
         x.pre_leader_status = None;
@@ -277,6 +292,9 @@ impl Scenario for Co {
                 w.release_done(c);
             }
         }
+        if x.start.is_none() {
+            return "handles-dropped".into();
+        }
         // every key is usable again: a fresh request starts a fresh inner call at once
         let mut fresh = vec![];
         for key in 0..self.keys {
@@ -298,8 +316,9 @@ impl Scenario for Co {
 
 fn configs(tier: Tier) -> Vec<Co> {
     vec![
-        Co { callers: tier.pick(3, 4), keys: 2, max_drops: tier.pick(2, 3), max_panics: 1, sync_panic_first: false },
-        Co { callers: 3, keys: 2, max_drops: 1, max_panics: 0, sync_panic_first: true },
+        Co { callers: tier.pick(3, 4), keys: 2, max_drops: tier.pick(2, 3), max_panics: 1, sync_panic_first: false, handles_may_go: false },
+        Co { callers: 3, keys: 2, max_drops: 1, max_panics: 0, sync_panic_first: true, handles_may_go: false },
+        Co { callers: 3, keys: 2, max_drops: 1, max_panics: 0, sync_panic_first: false, handles_may_go: true },
     ]
 }
 
@@ -348,7 +367,7 @@ fn main() {
         let opts = Opts { max_depth: depth, time_cap: Duration::from_secs(tier.pick(40, 900)), ..Opts::default() };
         let ex = svcx::explore(&cfg, &opts, &mut rep);
         if tier == Tier::Thorough {
-            let small = Co { callers: 3, keys: 2, max_drops: 2, max_panics: 1, sync_panic_first: false };
+            let small = Co { callers: 3, keys: 2, max_drops: 2, max_panics: 1, sync_panic_first: false, handles_may_go: false };
             let _ = ex;
             let mut scratch = Report::new("C11", tier, "model_checking");
             let ex3 = svcx::explore(&small, &Opts { max_depth: 6, ..Opts::default() }, &mut scratch);
